@@ -246,6 +246,7 @@ Ltac norm_neg H :=
   | ~ (_ \/ _) => let H1 := fresh "ng" in let H2 := fresh "ng" in
                    apply Decidable.not_or in H; destruct H as [H1 H2]; norm_neg H1; norm_neg H2
   | ~ (?A /\ ?B) => let H' := fresh "N" in assert (H' : box (~ A \/ ~ B)) by (unfold box; lia); clear H
+  | ~ (?x <> ?y) => let H' := fresh "N" in assert (H' : x = y) by lia; clear H
   | _ => idtac
   end.
 
